@@ -30,7 +30,10 @@ func (e *CachedEntityBase[SnapT, OpT]) Snapshot() SnapT {
 }
 
 func (e *CachedEntityBase[SnapT, OpT]) notifyUpdated() error {
-	return e.entityUpdated(e.entity.Id())
+	e.mu.RLock()
+	id := e.entity.Id()
+	e.mu.RUnlock()
+	return e.entityUpdated(id)
 }
 
 // ResolveOperationWithMetadata will find an operation that has the matching metadata
@@ -97,13 +100,19 @@ func (e *CachedEntityBase[SnapT, OpT]) Lock() {
 }
 
 func (e *CachedEntityBase[SnapT, OpT]) CreateLamportTime() lamport.Time {
+	e.mu.RLock()
+	defer e.mu.RUnlock()
 	return e.entity.CreateLamportTime()
 }
 
 func (e *CachedEntityBase[SnapT, OpT]) EditLamportTime() lamport.Time {
+	e.mu.RLock()
+	defer e.mu.RUnlock()
 	return e.entity.EditLamportTime()
 }
 
 func (e *CachedEntityBase[SnapT, OpT]) FirstOp() OpT {
+	e.mu.RLock()
+	defer e.mu.RUnlock()
 	return e.entity.FirstOp()
 }
